@@ -2544,7 +2544,10 @@ func (pid *PID) freeChildren(ctx context.Context) error {
 				logger.Debugf("parent %s disowning descendant %s", pid.Name(), child.Name())
 				pid.UnWatch(child)
 				tree.removeDescendant(node.id, child.ID())
-				if child.IsSuspended() || child.IsRunning() {
+				// a child that somebody else is already stopping must be waited for as
+				// well: Shutdown blocks on the child's stopLocker until that stop has
+				// completed and then returns nil
+				if child.IsSuspended() || child.IsRunning() || child.IsStopping() {
 					if err := child.Shutdown(ctx); err != nil {
 						// only return error when the actor is not dead
 						// because if the actor is dead it means that
